@@ -98,7 +98,10 @@ def build_store(r: Any, traces: list[tuple[str, str, tuple[list[int | None], tup
     for name, jid, (ps, ls), (st, en) in traces:
         ids = [f"{jid}.{i}" for i in range(len(ps))]
         for i, p in enumerate(ps):
-            events.append(sl.ev(name, jid, ls[i], ids[i], st + (k % 3), en + (k % 5), None if p is None else ids[p],
+            # a start / an end on a whole minute (other than the anchors') is a window edge and stays exact
+            ds = 0 if (st % MIN == 0 and st > 0) else k % 3
+            de = 0 if (en % MIN == 0 and en < 10 * MIN) else k % 5
+            events.append(sl.ev(name, jid, ls[i], ids[i], st + ds, en + de, None if p is None else ids[p],
                                 app=f"app{k % 4}"))
             k += 1
     if shuffle:
@@ -148,7 +151,7 @@ def gen_case(ctx: Ctx, small: list[Any]) -> dict[str, Any]:
     r = ctx.rng
     labels = r.choice(["AB", "AB", "ABC"])
     names = r.sample(["wf", "wf2", "Wf"], k=r.choice([1, 1, 2, 3]))
-    buffer = r.choice([0, 0, 0, 1])
+    buffer = r.choice([0, 0, 1])
     traces = []
     n_tr = r.choice([2, 4, 6, 10, 16])
     base: list[Any] = []
@@ -164,12 +167,14 @@ def gen_case(ctx: Ctx, small: list[Any]) -> dict[str, Any]:
             tr = r.choice(base)
         base.append(tr)
         ctx.tick("tree_" + kind)
-        place = r.choice(["in", "in", "in", "edge"]) if buffer else "in"
+        place = r.choice(["in", "in", "edge"]) if buffer else "in"
         if place == "in":
             st = 5 * MIN + r.randrange(0, 100)
             iv = (st, st + 50)
         else:
-            iv = (0, 10) if r.random() < 0.5 else (10 * MIN - 10, 10 * MIN)
+            # inside a buffer zone, or touching the window [1 min, 9 min] in exactly one instant: starting on its
+            # upper edge, ending on its lower edge (both ends of the window are inclusive)
+            iv = r.choice([(0, 10), (10 * MIN - 10, 10 * MIN), (9 * MIN, 9 * MIN + 50), (MIN - 50, MIN)])
         traces.append((r.choice(names), f"t{t}", tr, iv))
     if buffer:  # anchors so that the window is [1 min, 9 min]
         traces.append((names[0], "lo", small[0], (0, 5)))
